@@ -316,15 +316,26 @@ func reasonText(v uint32) string {
 }
 
 // checkError: a failed item must surface as an error carrying status, reason and message.
+// carries: the text contains the registered name, or the value in hexadecimal or decimal
+func carries(txt, name string, v uint32) bool {
+	low := strings.ToLower(txt)
+	for _, c := range []string{name, fmt.Sprintf("0x%08x", v), fmt.Sprintf("0x%x", v)} {
+		if c != "" && strings.Contains(low, strings.ToLower(c)) {
+			return true
+		}
+	}
+	return false
+}
+
 func checkErrorCarries(err error, ip itemPlan) string {
 	if err == nil {
 		return "failed-item-not-an-error"
 	}
 	txt := err.Error()
-	if !strings.Contains(txt, statusText(ip.Status)) {
+	if !carries(txt, statusText(ip.Status), ip.Status) {
 		return "error-lacks-status"
 	}
-	if ip.Reason != 0 && !strings.Contains(txt, reasonText(ip.Reason)) {
+	if ip.Reason != 0 && !carries(txt, reasonText(ip.Reason), ip.Reason) {
 		return "error-lacks-reason"
 	}
 	if ip.Message != "" && !strings.Contains(txt, ip.Message) {
